@@ -709,18 +709,21 @@ enum cc_stat cc_array_trim_capacity(CC_Array *ar)
     if (ar->size == ar->capacity)
         return CC_OK;
 
-    void **new_buff = ar->mem_calloc(ar->size, sizeof(void*));
+    size_t size = ar->size < 1 ? 1 : ar->size;
+
+    if (size == ar->capacity)
+        return CC_OK;
+
+    void **new_buff = ar->mem_calloc(size, sizeof(void*));
 
     if (!new_buff)
         return CC_ERR_ALLOC;
 
-    size_t size = ar->size < 1 ? 1 : ar->size;
-
-    memcpy(new_buff, ar->buffer, size * sizeof(void*));
+    memcpy(new_buff, ar->buffer, ar->size * sizeof(void*));
     ar->mem_free(ar->buffer);
 
     ar->buffer   = new_buff;
-    ar->capacity = ar->size;
+    ar->capacity = size;
 
     return CC_OK;
 }
